@@ -459,7 +459,14 @@ fn apply_grave_good(
 ) -> PersistenceResult<()> {
     for pattern in grave_goods {
         let path = KeySegment::parse(&pattern);
-        let (removed, _) = store.delete_matches(&path)?;
+        // a pattern that cannot be applied must not keep the rest of the database from being loaded
+        let removed = match store.delete_matches(&path) {
+            Ok((removed, _)) => removed,
+            Err(e) => {
+                warn!("Could not apply grave goods pattern {pattern}: {e}");
+                continue;
+            }
+        };
         trace!("Found grave goods for pattern {pattern}: {removed:?}");
         for kvp in removed {
             if table.remove(&kvp.key)?.is_some() {
@@ -476,8 +483,18 @@ fn apply_last_will(
     table: &mut redb::Table<'_, Key, ValueEntry>,
 ) -> PersistenceResult<()> {
     for KeyValuePair { key, value } in last_will {
-        let path = parse_segments(&key)?;
-        store.insert_plain(&path, value.clone(), true)?;
+        // a last will that cannot be applied must not keep the rest of the database from being loaded
+        let path = match parse_segments(&key) {
+            Ok(path) => path,
+            Err(e) => {
+                warn!("Could not apply last will for key {key}: {e}");
+                continue;
+            }
+        };
+        if let Err(e) = store.insert_plain(&path, value.clone(), true) {
+            warn!("Could not apply last will for key {key}: {e}");
+            continue;
+        }
         table.insert(key, ValueEntry::Plain(value))?;
     }
     Ok(())
